@@ -188,6 +188,9 @@ class Family:
                         except UnicodeEncodeError:
                             stats["skipped_unencodable"] += 1
                     sample = ok
+                if i % 24 == 5:
+                    # a text longer than the csv module's default field size limit (131072 characters)
+                    sample = sample[:2] + [(T0, "m", {"long": "y" * 131073}, {})]
                 path = os.path.join(d, f"f{i}.csv")
                 try:
                     db = tf.TinyFlux(path, encoding=enc, **dial)
@@ -218,6 +221,9 @@ class Family:
                                     for pt in sample)
                     if "lineterminator" in dial and "\r" not in dial["lineterminator"] and "\r" in texts:
                         sig = "cr-in-text-with-lf-lineterminator"
+                    elif any(len(x) > 131072 for pt in sample for x in [pt[1], *pt[2], *(v or "" for v in pt[2].values()), *pt[3]]):
+                        sig = "text-longer-than-csv-field-limit"
+                        got, exp = [g[:200] for g in got], [e[:200] for e in exp]
                     findings.append(Finding(
                         "impl-vs-spec", f"file round trip (encoding={enc}, dialect={dial}): wrote {exp} read {got}"[:900],
                         dict(family="c05-file", encoding=enc, dialect={k: v for k, v in dial.items()},
@@ -236,6 +242,8 @@ class Family:
             try:
                 path = os.path.join(d, "k.csv")
                 pts = [V.build_point(t, tf) for t in w["points"]]
+                if w.get("long_text"):
+                    pts.append(tf.Point(time=V.dt_of(T0), tags={"long": "y" * int(w["long_text"])}))
                 exp = [V.show_point(p) for p in pts]
                 try:
                     db = tf.TinyFlux(path, encoding=w.get("encoding"), **w.get("dialect", {}))
